@@ -548,6 +548,14 @@ theorem C19_txt_alias (d : Txt.PyDict) (text : Bytes) (obs : Txt.PyDict) (h : Tx
 example : ([112, 97, 116, 104], some [47, 120]) ∈ Txt.decodeLib [5, 97, 61, 98, 61, 99, 7, 112, 97, 116, 104, 61, 47, 120] := by
   simp [Txt.decodeLib, decodeLoop_cons, Txt.decodeLoop, Txt.partitionEq, Txt.insertNew, Txt.hasKey, Txt.libVal, Txt.eqByte]
 
+/-- … obtained from the theorem: its hypotheses (item limit, the entry's position, no `=` in its key, no earlier item with
+its key) are met by the second entry of `{'a=b': 'c', 'path': '/x'}` -/
+example : ∃ text, Txt.encode [([97, 61, 98], some [99]), ([112, 97, 116, 104], some [47, 120])] = .ok text
+    ∧ ([112, 97, 116, 104], some [47, 120]) ∈ Txt.decodeLib text := by
+  obtain ⟨text, h1, h2, _⟩ := C19_txt_entry_roundtrip _ [([97, 61, 98], some [99])] [] [112, 97, 116, 104] (some [47, 120])
+    (by decide) rfl (by decide)
+  exact ⟨text, h1, h2 (by decide)⟩
+
 /-- `{'path': '/x', 'flag': None, 'empty': ''}` is well-formed -/
 example : WFPropsRfc [([112, 97, 116, 104], some [47, 120]), ([102], none), ([101], some [])] where
   noEqInKey := by decide
